@@ -9,7 +9,7 @@ from ..model import body_stmts, canon, dotted, kwarg, norm, walk_no_nested
 from . import ilp, nbk
 from .c01 import rule_nullable_index
 from .c04 import array_layout
-from .common import assigned_value, enclosing, prog, resolve_local
+from .common import assigned_value, else_part, enclosing, prog, resolve_local
 
 AVG = "avg_num_annotations_per_annotator"
 
@@ -91,7 +91,7 @@ def rule_alignment_level(ctx: Ctx):
     ok = False
     if len(ifs) == 1:
         r1 = [s for s in ifs[0].body if isinstance(s, ast.Return)]
-        r2 = [s for s in ifs[0].orelse if isinstance(s, ast.Return)]
+        r2 = [s for s in else_part(a.node, ifs[0]) if isinstance(s, ast.Return)]
         ok = bool(r1) and norm(r1[0].value) == f"{an}.continuum.{AVG}" and bool(r2) and \
             canon(r2[0].value) in {canon(f"sum((u.nb_units for u in {an})) / {an}.num_annotators"),
                                    canon(f"sum((u.nb_units for u in {an}.unitary_alignments)) / {an}.num_annotators")}
